@@ -16,6 +16,7 @@ func init() {
 func c19(r *Report, s *Sem) {
 	p := r.P
 	a := s.anchors()
+	defer r.Import(s, "C13", "R9", "R8", "a server-initiated end is always seen: the session hand-off queue has constant capacity ≥ 1 whatever buffer size is configured, so the receiver can park the terminal envelope, fold the state and close the transport even when nobody is waiting for a session envelope", 1)
 	R1 := r.Rule("R1", "receiver exit ⇒ channel no longer counts as established (client role): every exit path of the receiver goroutine either leaves because the established predicate is false, or was requested by the stop routine (context cancelled), or passes Transport.Close — so the client's reuse test fails and it rebuilds", 1)
 	R2 := r.Rule("R2", "no spin and no stale reuse: the client hands out its cached channel only under the facts state==established ∧ connected, otherwise only a freshly built one; the rebuild loop re-checks the context and sleeps a back-off, counted in milliseconds or more, that grows with the attempt counter on every retry; the background listener goes through getOrBuildChannel and the dispatch loop on every cycle", 6)
 	R3 := r.Rule("R3", "replacement closes: every store of a new channel into Client.channel is preceded on all paths by a releasing call on the previous channel or by the edge 'previous channel is nil'", 1)
